@@ -66,7 +66,8 @@ Inductive action :=
 | TickResp (p : nat)     (* DelayPipeSendCL.up_delay, rotate branch *)
 | Deliver  (p : nat).    (* DelayPipeSendCL.up_delay, send branch (sink ready) *)
 
-Definition step (W : Z) (s : state) (a : action) : state :=
+(* W p = data width in bytes of port p's message type (ports may differ) *)
+Definition step (W : nat -> Z) (s : state) (a : action) : state :=
   match a with
   | Accept p =>
       let ps := ports s p in
@@ -85,7 +86,7 @@ Definition step (W : Z) (s : state) (a : action) : state :=
       match pipe_exit (qpipe ps) with
       | Some r =>
           if head_free (rpipe ps)
-          then let '(x, m') := apply W r (smem s) in
+          then let '(x, m') := apply (W p) r (smem s) in
                mkS (set_port (ports s) p (mkP (pending ps) (pipe_clear_exit (qpipe ps)) (pipe_enq x (rpipe ps)) (outp ps)))
                    m' (slog s ++ [(p, r)])
           else s
@@ -103,7 +104,7 @@ Definition step (W : Z) (s : state) (a : action) : state :=
       end
   end.
 
-Definition exec (W : Z) (s : state) (sched : list action) : state := fold_left (step W) sched s.
+Definition exec (W : nat -> Z) (s : state) (sched : list action) : state := fold_left (step W) sched s.
 
 (* ------------------------------------------------------------------ configuration *)
 (* reqs p = the request stream of port p; qlat p / rlat p = number of slots of its two pipes
@@ -124,7 +125,7 @@ Definition cycle_actions (nports : nat) (c : cyc) : list action :=
   flat_map (port_pre c) (seq 0 nports) ++
   map Service (seq 0 nports) ++
   flat_map (fun p => if acc c p then [Accept p] else []) (seq 0 nports).
-Definition run_cycles (W : Z) (nports : nat) (s : state) (cs : list cyc) : state :=
+Definition run_cycles (W : nat -> Z) (nports : nat) (s : state) (cs : list cyc) : state :=
   exec W s (flat_map (cycle_actions nports) cs).
 
 (* observables *)
